@@ -250,7 +250,10 @@ class NPProxy:
         a, b, c = _np.broadcast_arrays(_np.asarray(a, dtype=object), _np.asarray(b, dtype=object), c)
         out = _np.empty(c.shape, dtype=object)
         for idx in _np.ndindex(c.shape): out[idx] = ite(c[idx], a[idx], b[idx])
-        return out
+        return out.view(SymArray)
+    def dot(self, a, b, *k):
+        r = _np.dot(a, b, *k)
+        return r.view(SymArray) if isinstance(r, _np.ndarray) and r.dtype == object else r
     def isnan(self, x):
         if _has_sym(x): return _np.zeros(_np.shape(x), bool) if _np.ndim(x) else False
         return _np.isnan(x)
